@@ -9,6 +9,9 @@ HOW IT READS (DESIGN §2.5a)
   `StrictUndefined` AND rendering a template that names an undefined variable fails; the "live name" is
   the class of the object a template of that environment actually produces for an undefined name.
   How / where the environments are constructed does not matter.  Filters are a set: sorted.
+* `strict` vs `strictShallow`: BEHAVIOUR — printing a list that holds the undefined object fails / prints the
+  word 'Undefined'.  nativeUndefinedDeepCheck: BEHAVIOUR — the same probe as nativeUndefinedCheck with the name
+  inside list / tuple / dict literals (nested).
 * nativeUndefinedCheck: BEHAVIOUR — `parse_as_string("{@ <undefined name> @}", <non-empty context>)`
   reports a problem (a record ≥ ERROR on the main logger, or an exception) instead of handing the
   `Undefined` object back.
@@ -23,12 +26,14 @@ from .. import t1lib
 from ..extract_tables import _find_class, _parse, lean_str, lean_str_list
 
 
-def _classify(env, produces_error: bool) -> str:
+def _classify(env, produces_error: bool, repr_fails: bool) -> str:
     import jinja2
 
     cls = env.undefined
     if isinstance(cls, type) and issubclass(cls, jinja2.StrictUndefined) and produces_error:
-        return "strict"
+        # `strict`: also the repr() of the object fails (a container that holds it cannot be printed);
+        # plain StrictUndefined prints as the word 'Undefined' there
+        return "strict" if repr_fails else "strictShallow"
     if cls is jinja2.Undefined and not produces_error:
         return "lenient"
     return "other"
@@ -61,7 +66,7 @@ class _Capture(logging.Handler):
         self.records.append(record)
 
 
-def native_undefined_check(cp) -> bool:
+def native_undefined_check(cp, inner: str = "t1_probe_nope") -> bool:
     lg = t1lib.load("rpft.logger.logger")
     logger = lg.get_logger()
     cap = _Capture()
@@ -69,7 +74,7 @@ def native_undefined_check(cp) -> bool:
     raised = False
     try:
         try:
-            cp.parse_as_string(f"{cp.native_env.variable_start_string} t1_probe_nope {cp.native_env.variable_end_string}", {"t1_defined": 1})
+            cp.parse_as_string(f"{cp.native_env.variable_start_string} {inner} {cp.native_env.variable_end_string}", {"t1_defined": 1})
         except BaseException:  # noqa: BLE001  (SystemExit of a ShutdownHandler included)
             raised = True
     finally:
@@ -129,7 +134,9 @@ def tables() -> str:
     for k, e in envs.items():
         s, t = delims[k]
         fails = _fails(lambda e=e, s=s, t=t: e.from_string(f"{s} t1_probe_nope {t}").render({"t1_defined": 1}))
-        pol[k] = _classify(e, fails)
+        printed = _fails(lambda e=e, s=s, t=t: e.from_string(f"{s} [t1_probe_nope] {t}").render({"t1_defined": 1}) if k == "text"
+                         else repr(e.from_string(f"{s} [t1_probe_nope] {t}").render({"t1_defined": 1})))
+        pol[k] = _classify(e, fails, printed)
         name[k] = e.undefined.__name__
         got, made = _undefined_object(e, s, t)
         live[k] = type(got).__name__ if isinstance(got, jinja2.Undefined) else type(made).__name__
@@ -140,9 +147,12 @@ def tables() -> str:
     cls_ast = _find_class(_parse("parsers/common/cellparser.py"), "CellParser")
     w_start, w_end, w_find, w_brace, w_off = _wrapper_literals(cls_ast, t1lib.Resolver(m.CellParser, m))
     check = native_undefined_check(cp)
+    # BEHAVIOUR: the check of the native result looks inside lists, tuples and dict values, to any depth
+    deep = check and all(native_undefined_check(cp, inner) for inner in (
+        "[t1_probe_nope]", "(t1_defined, t1_probe_nope)", "{'k': t1_probe_nope}", "[[t1_defined, {'k': (t1_probe_nope,)}]]"))
 
     return (
-        "inductive JinjaPolicy where\n  | strict | lenient | other\n  deriving DecidableEq, Repr\n"
+        "inductive JinjaPolicy where\n  | strict | strictShallow | lenient | other\n  deriving DecidableEq, Repr\n"
         f"def jinjaPolicy : JinjaPolicy := .{pol['text']}\n"
         f"def jinjaNativePolicy : JinjaPolicy := .{pol['native']}\n"
         f"def jinjaUndefinedName : List Char := {lean_str(name['text'])}\n"
@@ -150,6 +160,7 @@ def tables() -> str:
         f"def jinjaUndefinedLiveName : List Char := {lean_str(live['text'])}\n"
         f"def jinjaNativeUndefinedLiveName : List Char := {lean_str(live['native'])}\n"
         f"def nativeUndefinedCheck : Bool := {'true' if check else 'false'}\n"
+        f"def nativeUndefinedDeepCheck : Bool := {'true' if deep else 'false'}\n"
         f"def textVarDelims : List (List Char) := {lean_str_list(delims['text'])}\n"
         f"def nativeVarDelims : List (List Char) := {lean_str_list(delims['native'])}\n"
         f"def blockDelims : List (List Char) := {lean_str_list(blocks)}\n"
